@@ -241,6 +241,17 @@ def check_meter(ctx, case):
         b2 = ctx.ok("constructor", Bar, "C", (n, d))
         if not failed(b2):
             ctx.check(tuple(b2.meter) == (n, d), "constructor/meter", repr(b2.meter))
+            # a bar in which nothing was placed, however short it is: no entries, beat 0, not full ("full exactly when it is
+            # non-empty and ...")
+            f0 = ctx.ok("is_full", b2.is_full)
+            ctx.check(failed(f0) or (not f0 and len(b2) == 0 and b2.current_beat == 0), "fresh-bar/full-or-not-empty",
+                      lambda: "fresh bar in %r: is_full %r, %d entries, current beat %r" % ((n, d), f0, len(b2), b2.current_beat))
+            emptied = Bar("C", (4, 4))
+            emptied.place_notes("C-4", 4)
+            emptied.remove_last_entry()
+            if not failed(ctx.ok("set_meter", emptied.set_meter, (n, d))):
+                f1 = ctx.ok("is_full", emptied.is_full)
+                ctx.check(failed(f1) or not f1, "fresh-bar/full-or-not-empty", lambda: "emptied bar given meter %r: is_full %r" % ((n, d), f1))
     else:
         try:
             bar.set_meter((n, d))
